@@ -1298,3 +1298,92 @@ ASSUMPTIONS = [
 NOT_COVERED = ["free-threaded CPython", "pre-emption inside C code",
                "two threads inside the same caller-created instance",
                "asynchronous interrupts (KeyboardInterrupt) inside a parse"]
+
+
+# --------------------------------------------------------------------------- enumerated families
+SYSTEMATIC_DOC = (
+    "Besides the seeded random plans, three families are enumerated completely for a few "
+    "text pairs: (A) abort on a shared lexer, then a second op on that lexer with a "
+    "collector pass at EVERY traced event of the second op; (B) the same with the stale "
+    "stream referenced by a pooled parser and a pre-emption at EVERY traced event of the "
+    "second op, after which another client re-uses that parser (prompt close in another "
+    "thread); (C) two clients calling a shorthand, client 0 pre-empted at EVERY traced "
+    "event of its call while client 1 runs a complete call.")
+
+SYS_PAIRS = [
+    # (earlier input that aborts, later input)
+    ("name eq 'abc' and rating gt", "name eq 'abc' and rating gt 3 or not (id in (1, 2, 3))"),
+    ("posts/any(p: p/rating ge 3", "contains(tolower(name), 'a') and startswith(title, 'T')"),
+    ("foo(name) eq 1", "created_at gt 2019-01-01T14:00:00Z and d eq 2019-01-01 and t lt 14:00:00"),
+    ("name eq 'abc' rating 3", "dur eq duration'P1DT2H' and g eq 01234567-89ab-cdef-0123-456789abcdef"),
+    ("x in (1, 2", "x in ('a', 'b') or y in (1,)"),
+    ("tolower(a, b) eq 'x'", "-a add 3 div 2 mod 5 le +7"),
+    ("(name eq 'abc'", "posts/all(p: p/rating mul 2 sub 1 lt 10.5)"),
+    ("a eq 1 b eq 2", "geo.distance(loc, geography'POINT(1 2)') lt 10.0"),
+    ("name eq", "my.func(a=1, b='x') eq true"),
+    ("my.func(a=1, b=2, c=3)", "author/name eq 'ann' and post/author/name ne null"),
+    ("name eq eq 'abc'", "ns.field eq null and not b"),
+    ("substring(a) eq 'x'", "year(created_at) eq 2019 and now() gt created_at"),
+]
+
+
+def systematic_jobs(seed, tier):
+    """One job per (family, pair, slice); a job enumerates its positions in the worker."""
+    if tier == "thorough":
+        pairs = list(range(len(SYS_PAIRS)))
+        nsl = 4
+        fams = ["A", "B", "C", "Aop", "Apartial"]
+    else:
+        pairs = [seed % len(SYS_PAIRS)]
+        nsl = 8
+        fams = ["A", "B", "C"]
+    return [{"family": f, "pair": p, "slice": s, "nslices": nsl}
+            for f in fams for p in pairs for s in range(nsl)]
+
+
+def systematic_plans(seed, spec):
+    fam, pi = spec["family"], spec["pair"]
+    bad, good = SYS_PAIRS[pi]
+    dry = _W["dry"]
+    opcode = fam == "Aop"
+    gran = "opcode" if opcode else "line"
+    if fam in ("A", "Aop", "Apartial"):
+        if fam == "Apartial":
+            o0 = {"id": "c0o0", "kind": "tokenize_partial", "text": good, "k": 3, "lexer": 0,
+                  "parser": -1, "linger": True}
+        else:
+            o0 = {"id": "c0o0", "kind": "parse", "text": bad, "lexer": 0, "parser": -1,
+                  "linger": True}
+        o1 = {"id": "c0o1", "kind": "parse", "text": good, "lexer": 0, "parser": -1,
+              "linger": False}
+        n, _ = dry.get(o1, opcode)
+        for k in range(1 + spec["slice"], n + 1, spec["nslices"]):
+            yield ("sys%s-p%d-k%d" % (fam, pi, k), {
+                "property": "C20", "seed": seed, "run": "sys%s-p%d-k%d" % (fam, pi, k),
+                "granularity": gran, "n_lexers": 1, "n_parsers": 1, "start": 0,
+                "clients": [{"ops": [dict(o0), dict(o1)]}],
+                "points": [{"op": "c0o1", "at": k, "kind": "gc", "ord": 0}]})
+    elif fam == "B":
+        o0 = {"id": "c0o0", "kind": "parse", "text": bad, "lexer": 0, "parser": 0, "linger": False}
+        o1 = {"id": "c0o1", "kind": "parse", "text": good, "lexer": 0, "parser": 1, "linger": False}
+        b0 = {"id": "c1o0", "kind": "parse", "text": "a eq 1", "lexer": 1, "parser": 0, "linger": False}
+        n, _ = dry.get(o1, False)
+        for k in range(1 + spec["slice"], n + 1, spec["nslices"]):
+            yield ("sysB-p%d-k%d" % (pi, k), {
+                "property": "C20", "seed": seed, "run": "sysB-p%d-k%d" % (pi, k),
+                "granularity": "line", "n_lexers": 2, "n_parsers": 2, "start": 0,
+                "clients": [{"ops": [dict(o0), dict(o1)]}, {"ops": [dict(b0)]}],
+                "points": [{"op": "c0o1", "at": k, "kind": "preempt", "to": 1, "ord": 0}]})
+    elif fam == "C":
+        kinds = ["sa_core", "sa_orm", "django"]
+        ka, kb = kinds[pi % 3], kinds[(pi // 3) % 3]
+        a0 = {"id": "c0o0", "kind": ka, "text": good, "linger": False}
+        b0 = {"id": "c1o0", "kind": kb, "text": bad if pi % 2 else "title eq 'x' and rating gt 1",
+              "linger": False}
+        n, _ = dry.get(a0, False)
+        for k in range(1 + spec["slice"], n + 1, spec["nslices"]):
+            yield ("sysC-p%d-k%d" % (pi, k), {
+                "property": "C20", "seed": seed, "run": "sysC-p%d-k%d" % (pi, k),
+                "granularity": "line", "n_lexers": 1, "n_parsers": 1, "start": 0,
+                "clients": [{"ops": [dict(a0)]}, {"ops": [dict(b0)]}],
+                "points": [{"op": "c0o0", "at": k, "kind": "preempt", "to": 1, "ord": 0}]})
